@@ -358,8 +358,144 @@ def _evaluated_first(expr, use):
     return state["found"]
 
 
+def _scalarize_dicts(fn):
+    """scalar replacement of small keyword dictionaries: a local name bound ONCE, to a dict display with constant string keys, that is otherwise only
+    read / written through those constant keys (`D["k"]`, `D["k"] = v`) or splatted into calls (`f(**D)`), is replaced by one local per key:
+        D = {"a": x, "b": y}; if c: D["b"] = g(D["b"]); return f(**D)   ->   D__a = x; D__b = y; if c: D__b = g(D__b); return f(a=D__a, b=D__b)"""
+    changed = False
+    binds = {}
+    for s in A.walk_local(fn):
+        if isinstance(s, ast.Assign) and len(s.targets) == 1 and isinstance(s.targets[0], ast.Name):
+            binds.setdefault(s.targets[0].id, []).append(s)
+    params = set(A.param_names(fn))
+    for name, sts in binds.items():
+        if len(sts) != 1 or name in params:
+            continue
+        st = sts[0]
+        d = st.value
+        if not (isinstance(d, ast.Dict) and d.keys and all(k is not None and isinstance(k, ast.Constant) and isinstance(k.value, str) and k.value.isidentifier() for k in d.keys)):
+            continue
+        keys = [k.value for k in d.keys]
+        if len(set(keys)) != len(keys):
+            continue
+        ok = True
+        uses = []
+        for n in ast.walk(fn):
+            if isinstance(n, ast.Name) and n.id == name and n is not st.targets[0]:
+                par = getattr(n, "_parent", None)
+                if isinstance(par, ast.Subscript) and par.value is n and isinstance(par.slice, ast.Constant) and par.slice.value in keys:
+                    uses.append(("sub", par))
+                elif isinstance(par, ast.keyword) and par.arg is None and par.value is n:
+                    uses.append(("star", par))
+                else:
+                    ok = False
+                    break
+        if not ok or not uses or not any(k == "star" for k, _ in uses):
+            continue
+        # the display statement must come first in its block order relative to all uses (it dominates them): the single binding precedes every use textually
+        if any(getattr(u, "lineno", 10 ** 9) < st.lineno for _, u in uses if hasattr(u, "lineno")):
+            continue
+        # nested functions reading D: give up
+        if any(isinstance(x, A.FUNC_TYPES + (ast.Lambda,)) and any(isinstance(y, ast.Name) and y.id == name for y in ast.walk(x)) for x in ast.walk(fn) if x is not fn):
+            continue
+        loc = {k: "%s__%s" % (name, k) for k in keys}
+        for kind, node in uses:
+            if kind == "sub":
+                ctx_ = node.ctx
+                k = node.slice.value
+                node.__class__ = ast.Name
+                for a_ in ("value", "slice"):
+                    delattr(node, a_)
+                node.id, node.ctx = loc[k], ctx_
+            else:
+                call = getattr(node, "_parent", None)
+                if not isinstance(call, ast.Call):
+                    ok = False
+                    continue
+                i = call.keywords.index(node)
+                call.keywords[i:i + 1] = [ast.keyword(arg=k, value=ast.Name(id=loc[k], ctx=ast.Load())) for k in keys]
+        new = [ast.copy_location(ast.Assign(targets=[ast.Name(id=loc[k.value], ctx=ast.Store())], value=v), st) for k, v in zip(d.keys, d.values)]
+        blk = A.block_of(st)
+        if blk:
+            p_, f_, lst, i = blk
+            lst[i:i + 1] = new
+            changed = True
+    if changed:
+        ast.fix_missing_locations(fn)
+        from .inline import _relink
+        _relink(fn, getattr(fn, "_parent", None), getattr(fn, "_module", None))
+    return changed
+
+
+def _coalesce_copies(fn):
+    """y = x  (both plain locals, not in a loop) where x is never mentioned after the copy and y is never mentioned before it: x and y are one variable.
+    Every occurrence of x is renamed to y and the copy disappears (typical after inlining a helper: `n = __h1_n`)."""
+    changed = False
+    params = set(A.param_names(fn))
+    for _ in range(50):
+        again = False
+        for s in list(A.walk_local(fn)):
+            if not (isinstance(s, ast.Assign) and len(s.targets) == 1 and isinstance(s.targets[0], ast.Name) and isinstance(s.value, ast.Name)):
+                continue
+            y, x = s.targets[0].id, s.value.id
+            if x == y or x in params or y in params:
+                continue
+            if any(isinstance(a, (ast.For, ast.While, ast.AsyncFor)) for a in A.ancestors(s) if not isinstance(a, A.FUNC_TYPES)):
+                continue
+            pos = (s.lineno, s.col_offset)
+            end = (getattr(s, "end_lineno", s.lineno), getattr(s, "end_col_offset", 10 ** 6))
+            ok = True
+            n_x = 0
+            for n in ast.walk(fn):
+                if isinstance(n, ast.Name) and n is not s.targets[0] and n is not s.value:
+                    p_ = (getattr(n, "lineno", 0), getattr(n, "col_offset", 0))
+                    if n.id == x:
+                        n_x += 1
+                        if p_ > pos:
+                            ok = False
+                    elif n.id == y and p_ < pos:
+                        ok = False
+                elif isinstance(n, (ast.Global, ast.Nonlocal)) and (x in n.names or y in n.names):
+                    ok = False
+                elif isinstance(n, A.FUNC_TYPES + (ast.Lambda,)) and n is not fn and any(isinstance(m, ast.Name) and m.id in (x, y) for m in ast.walk(n)):
+                    ok = False
+            if not ok or n_x == 0:
+                continue
+            # positions are only trustworthy on original source text: inlined statements carry the call site's position, so require distinct, ordered positions
+            defs_x = [n for n in ast.walk(fn) if isinstance(n, ast.Name) and n.id == x and isinstance(n.ctx, ast.Store)]
+            if not defs_x:
+                continue
+            for n in ast.walk(fn):
+                if isinstance(n, ast.Name) and n.id == x:
+                    n.id = y
+            blk = A.block_of(s)
+            if blk:
+                p_, f_, lst, i = blk
+                lst[i:i + 1] = [] if len(lst) > 1 else [ast.copy_location(ast.Pass(), s)]
+            changed = again = True
+            break
+        if not again:
+            break
+    return changed
+
+
 def normalize_function(fn, max_rounds=300):
+    changed_any = False
+    for _ in range(4):
+        c = _normalize_function_once(fn, max_rounds)
+        changed_any = changed_any or c
+        if not _coalesce_copies(fn):
+            break
+        changed_any = True
+    return changed_any
+
+
+def _normalize_function_once(fn, max_rounds=300):
     changed_any = _split_unpacking(fn)
+    if _coalesce_copies(fn):
+        changed_any = True
+    if _scalarize_dicts(fn):
+        changed_any = True
     if _inline_adjacent(fn):
         changed_any = True
     params = set(A.param_names(fn))
